@@ -471,15 +471,18 @@ class Context:
                 return 0
 
             def compare_fn(a, b):
-                if comparator and callable(comparator):
-                    if isinstance(comparator, JSFunction):
-                        result = self._call_function(comparator, [a, b])
-                    else:
-                        result = comparator(a, b)
-                    # Only the sign matters (NaN counts as equal)
-                    num = to_number(result) if result is not UNDEFINED else 0
-                    return 1 if num > 0 else -1 if num < 0 else 0
-                return default_compare(a, b)
+                if isinstance(comparator, JSFunction):
+                    result = self._call_function(comparator, [a, b])
+                elif isinstance(comparator, JSBoundMethod):
+                    # a native that takes `this` first: a comparator has none
+                    result = comparator(UNDEFINED, a, b)
+                elif callable(comparator):
+                    result = comparator(a, b)
+                else:
+                    return default_compare(a, b)
+                # Only the sign matters (NaN counts as equal)
+                num = to_number(result) if result not in (UNDEFINED, None) else 0
+                return 1 if num > 0 else -1 if num < 0 else 0
 
             # Sort using Python's sort with custom key
             from functools import cmp_to_key
